@@ -90,6 +90,7 @@ def run(ctx):
     ctx.sample({"from_rh_vector": cases[3][1], "class": "CVSS" + cases[3][0]})
     ascii_cases = [(v, t) for v, t in cases if core.sendable(t) and all(ord(c) < 128 for c in t.split("/", 1)[0])]
     if ctx.model_available:
+        float_model_tie(ctx, rng)
         n, dis, _ = core.compare_construct(ascii_cases, "c", ctx.tally, rh=True)
         for v, s, mo, io_ in dis:
             ctx.disagree("model-vs-code:v%s:from_rh_vector" % v, s, mo, io_)
@@ -101,6 +102,51 @@ def run(ctx):
             ctx.violation("v%s:from_rh:%s-expected-%s" % (ver, got.replace("err\t", ""), want.replace("err\t", "")),
                           "from_rh_vector outcome differs from 'number parses, vector valid, number == base score'",
                           text, want, got, replay={"ver": ver, "text": text})
+
+
+def float_model_tie(ctx, rng):
+    """direct tie of the Lean model of float(): literal grammar + binary64 rounding vs CPython on ASCII strings"""
+    from fractions import Fraction
+    import math
+    def gen():
+        k = rng.random()
+        digs = lambda n: "".join(rng.choice("0123456789") for _ in range(n))  # noqa
+        if k < 0.1:
+            return rng.choice(["inf", "-inf", "+Infinity", "nan", "-NaN", "iNf", "infinit", "na", "in f", "Infinity "])
+        s = rng.choice(["", "", "+", "-"])
+        ip = digs(rng.choice([0, 1, 1, 2, 5, 20]))
+        if ip and rng.random() < 0.15:
+            i = rng.randrange(len(ip) + 1)
+            ip = ip[:i] + "_" + ip[i:]
+        s += ip
+        if rng.random() < 0.7:
+            s += "." + digs(rng.choice([0, 1, 2, 3, 17, 30]))
+        if rng.random() < 0.35:
+            s += rng.choice("eE") + rng.choice(["", "+", "-"]) + digs(rng.choice([0, 1, 2, 3]))
+        if rng.random() < 0.15:
+            s = rng.choice([" ", "\t", "\n", "\x0b", "\x1c"]) + s + rng.choice(["", " ", "\r\n"])
+        if rng.random() < 0.1:
+            i = rng.randrange(len(s) + 1)
+            s = s[:i] + rng.choice("_.e+- x/") + s[i:]
+        return s
+    strs = list(dict.fromkeys([gen() for _ in range(ctx.n(6000, 200000))] +
+                              ["%d.%d" % (k // 10, k % 10) for k in range(101)] +
+                              ["1e-400", "1e400", "4.9e-324", "2.4e-324", "2.5e-324", "1.7976931348623157e308", "1.7976931348623159e308",
+                               "0.1", "7.4999999999999999999", "7.450000000000000000001", "9007199254740993", "1_0", "1__0", "_1", "1_"]))
+    out = core.run_driver(["F\t%s" % enc(s) for s in strs])
+    ctx.count(len(strs))
+    for s, mo in zip(strs, out):
+        try:
+            f = float(s)
+            py = "nan" if math.isnan(f) else ("inf" if f == math.inf else "-inf" if f == -math.inf else None)
+            if py is None:
+                fr = Fraction(f)
+                py = str(fr.numerator) if fr.denominator == 1 else "%d/%d" % (fr.numerator, fr.denominator)
+        except ValueError:
+            py = "err"
+        if mo != py:
+            ctx.disagree("model-vs-code:float()", s, mo, py)
+    ctx.extra["float_literals_compared"] = len(strs)
 
 
 def replay(data):
